@@ -704,7 +704,9 @@ MANIFEST = {
              "tuples, a second interleaved instance): every result is compared with a fresh "
              "non-memoizing counterpart, handler invocations are counted per key, and the "
              "mapper optimizer is exercised under every option combination valid for the "
-             "mapper family."),
+             "mapper family (argument-free, positional, keyword, walk, alias-overriding and "
+             "guard-key families); the CSE caching mix-in is also observed on mappers that "
+             "are not CachedMappers."),
     "note": ("Trusted: the non-memoizing mappers as the reference (their own correctness is "
              "C02/C04/C08/C09), pbt/walk.py keys for comparison."),
     "technique": "history-based property testing (generated call sequences per instance) with differential oracle and invocation counting; exhaustive optimizer option combinations",
